@@ -8,7 +8,7 @@ correctness — the escaped text decodes to the stored text and cannot end its l
 business of the lemmas in pyvc/lemmas.py and of the bounded obligation C13.B.sites."""
 from textwrap import indent
 from pyvc.verify import contract
-from pyvc.speclib import fresh, old, abstract
+from pyvc.speclib import fresh, old, abstract, matches, rx_plus, rx_cls, rx_alt, rx_seq, rx_opt, rx_lit, rx_star, rx_any
 from pydbml.classes import (Column, Enum, EnumItem, Expression, Index, Note, Project, Reference, StickyNote,
                             Table, TableGroup)
 from pydbml.renderer.dbml.default import DefaultDBMLRenderer as _DBML
@@ -87,9 +87,21 @@ class prepare_text_for_dbml:
         return escaped(text)
 
 
+# The bare spellings, written from the property (C02: what is written bare must be read back as the same name or
+# type) and from the DBML documentation, not from the pattern text in /repo: a bare identifier is a non-empty word
+# of ASCII letters, digits and underscores (the grammar's identifier token, pinned by S.string-tokens); a bare type
+# is such a word, optionally followed by a parenthesised argument text or by "[]", or two words joined by one dot.
+WORD = rx_plus(rx_cls('a-z', 'A-Z', '0-9', '_'))
+BARE_TYPE = rx_alt(rx_seq(WORD, rx_opt(rx_alt(rx_seq(rx_lit('('), rx_star(rx_any()), rx_lit(')')), rx_lit('[]')))),
+                   rx_seq(WORD, rx_lit('.'), WORD))
+
+
 @contract('pydbml.renderer.dbml.default.utils:quote_name_if_needed')
 class quote_name_if_needed:
-    tier = 'none'
+    """the pattern in the real function is translated mechanically (pyvc/regex.py) and proved to accept exactly
+    WORD; every other name is wrapped in double quotes unchanged"""
+    returns_defines = True
+    properties = ('C02', 'C08')
     params = {'name': 'str'}
     pure = True
     ret = 'str'
@@ -97,16 +109,23 @@ class quote_name_if_needed:
     def returns(name):
         return bare_or_quoted_name(name)
 
+    def ensures_bare_iff_word(name, result):
+        return result == (name if matches(name, WORD) else '"' + name + '"')
+
 
 @contract('pydbml.renderer.dbml.default.utils:quote_type_if_needed')
 class quote_type_if_needed:
-    tier = 'none'
+    returns_defines = True
+    properties = ('C02', 'C08')
     params = {'type_': 'str'}
     pure = True
     ret = 'str'
 
     def returns(type_):
         return bare_or_quoted_type(type_)
+
+    def ensures_bare_iff_simple_type(type_, result):
+        return result == (type_ if matches(type_, BARE_TYPE) else '"' + type_ + '"')
 
 
 @contract('pydbml.tools:doublequote_string')
